@@ -83,6 +83,12 @@ CHECKS = {
         note="Any single residue class is accepted for SAC's actor gating (the statement does not fix the phase).",
         ref="5 (C10)",
     ),
+    "C18": dict(
+        oracle="save/load operation sequences over a simulated disk with crash points (torn write, ENOSPC, pre-existing files) against a content model",
+        text="Seeded sequences of save/load under many path spellings for all three policy classes and all supported space kinds, with file-system faults between and inside operations; round trips must be bit-identical in leaves and behaviour, shape mismatches and torn/short/foreign files must raise. Exploration with fault injection.",
+        note="Real temp directory as the disk; no bit flips (no checksums promised); EACCES not injectable as root.",
+        ref="5 (C18)",
+    ),
     "C19": dict(
         oracle="RefLogger on true rewards per node; ordered-delivery history oracle; RefEval",
         text="The real LoggingCallback step logic runs inside the real collection loops; statistics are compared with a reference fed with the true environment rewards derived from the recorded chain. Seeded exploration.",
